@@ -396,7 +396,7 @@ CLAIMS["C03"].update(
     technique="Lean 4 invariant proofs over the kernel LTS + trace validation + latency oracle")
 CLAIMS["C07"].update(
     category="proof",
-    text="20 Lean theorems over the kernel model. For every reachable state: every future id in use has exactly "
+    text="35 Lean theorems over the kernel model. For every reachable state: every future id in use has exactly "
          "one role (start future of one child, completion future of one group, handle waiter, sleep, user "
          "future) - the start future is private to the handshake (C07_future_roles, _start_future_fresh); a "
          "start future changes state only from pending and only by (a) started() executed by that very child, "
@@ -410,7 +410,14 @@ CLAIMS["C07"].update(
          "after the handshake or after the caller was cancelled is routed to the group (F2); started() on a "
          "resolved/failed future is RuntimeError with the state unchanged, on a cancelled one no error. A task "
          "waiting in start() is never yielded, so its step handle is never enabled and C07_value covers both "
-         "handles (C07_value_any). Trace validation and the handshake oracle tie the model to the code.",
+         "handles (C07_value_any). 'After which the child is an ordinary member of the group' "
+         "(Props/C07member.lean, 15 theorems): for a child whose start future holds the started() value, the "
+         "group's done-callback acts exactly as for a start_soon child - the result states are equal once the "
+         "start-future field is erased (C07_member_task_done_same) - so a later error is recorded and routed, "
+         "ANY exception outcome including a cancellation cancels the group scope iff it was not effectively "
+         "cancelled, and the child leaves the task set and resolves the completion future; started() itself "
+         "changes only the future and the caller's wake-up, membership is unchanged across it; a start future "
+         "that failed is never seen by the callback again. Trace validation and the handshake oracle tie the model to the code.",
     technique="Lean 4 invariant proofs over the kernel LTS + trace validation + handshake oracle")
 CLAIMS["C08"].update(
     category="proof",
